@@ -229,7 +229,27 @@ fn count_entries(text: &str) -> usize {
     parseobs::observe_parse(text).entries.len()
 }
 
+/// where the files of a tree live: the root, the chain of included files below it (paths
+/// relative to the tree), and how each file names the next one in its `include`
+struct Layout {
+    names: [&'static str; 4],
+    includes: [&'static str; 3],
+}
+
+const PLAIN: Layout = Layout { names: ["main.ledger", "sub/a.ledger", "sub/deep/b.ledger", "sub/deep/c d.ledger"], includes: ["sub/a.ledger", "deep/b.ledger", "c d.ledger"] };
+
 fn gen_case(r: &mut Rng, bads: &[Bad], k: usize) -> Case {
+    gen_case_in(r, bads, k, &PLAIN)
+}
+
+fn dir_of(p: &str) -> &str {
+    match p.rfind('/') {
+        Some(i) => &p[..i + 1],
+        None => "",
+    }
+}
+
+fn gen_case_in(r: &mut Rng, bads: &[Bad], k: usize, layout: &Layout) -> Case {
     let bad = k % bads.len();
     let depth = (k / bads.len()) % 4;
     let crlf = match r.below(10) {
@@ -238,8 +258,8 @@ fn gen_case(r: &mut Rng, bads: &[Bad], k: usize) -> Case {
         _ => 2,
     };
     let mut g = G { r, crlf };
-    let names = ["main.ledger", "sub/a.ledger", "sub/deep/b.ledger", "sub/deep/c d.ledger"];
-    let includes = ["sub/a.ledger", "deep/b.ledger", "c d.ledger"];
+    let names = layout.names;
+    let includes = layout.includes;
     let mut files = Vec::new();
     for d in 0..depth {
         let mut t = g.valid_block(3);
@@ -258,7 +278,7 @@ fn gen_case(r: &mut Rng, bads: &[Bad], k: usize) -> Case {
     // sometimes the bad entry comes after the loader has returned from a side include
     // (a valid file, or a blank one) in the same file
     if k % 3 != 0 {
-        let dir = ["", "sub/", "sub/deep/", "sub/deep/"][depth];
+        let dir = dir_of(names[depth]);
         let blank = k % 2 == 0;
         let side = format!("{}side{}.ledger", dir, k % 4);
         let content = if blank { if k % 4 == 0 { String::new() } else { "\n  \n".to_string() } } else { g.valid_block(2) };
@@ -297,6 +317,101 @@ fn gen_case(r: &mut Rng, bads: &[Bad], k: usize) -> Case {
         files.push(sf);
     }
     Case { files, bad_file, first_line, last_line, entry_index, bad, depth, direct }
+}
+
+/// The stream `relative-root`: the root file is named on the command line by a RELATIVE path
+/// (`main.ledger`, `./main.ledger`, `books/main.ledger`, `../main.ledger`, ...) from a current
+/// directory the harness chooses, and the included files repeat the last components of that
+/// path (one `main.ledger` per year directory).  `ABS` stands for the absolute path.
+struct RelLayout {
+    name: &'static str,
+    layout: Layout,
+    /// (current directory relative to the tree, root path as typed)
+    spellings: &'static [(&'static str, &'static str)],
+}
+
+const ABS: &str = "<absolute>";
+
+const REL_LAYOUTS: [RelLayout; 4] = [
+    RelLayout {
+        name: "root main.ledger, included */main.ledger",
+        layout: Layout { names: ["main.ledger", "2023/main.ledger", "2023/q1/main.ledger", "2023/q1/old/main.ledger"], includes: ["2023/main.ledger", "q1/main.ledger", "old/main.ledger"] },
+        spellings: &[(".", "main.ledger"), (".", "./main.ledger"), ("2023", "../main.ledger"), (".", ABS)],
+    },
+    RelLayout {
+        name: "root books/main.ledger, included */books/main.ledger",
+        layout: Layout {
+            names: ["books/main.ledger", "books/2023/main.ledger", "books/2023/books/main.ledger", "books/2023/books/q1/books/main.ledger"],
+            includes: ["2023/main.ledger", "books/main.ledger", "q1/books/main.ledger"],
+        },
+        spellings: &[(".", "books/main.ledger"), (".", "./books/main.ledger"), ("books", "main.ledger"), ("books", "./main.ledger"), ("books/2023", "../main.ledger"), ("books", "../books/main.ledger")],
+    },
+    RelLayout {
+        name: "root main.ledger, included files named differently",
+        layout: Layout { names: ["main.ledger", "sub/a.ledger", "sub/deep/b.ledger", "sub/deep/c d.ledger"], includes: ["sub/a.ledger", "deep/b.ledger", "c d.ledger"] },
+        spellings: &[(".", "main.ledger"), (".", "./main.ledger"), ("sub", "../main.ledger")],
+    },
+    RelLayout {
+        name: "root 帳簿/2024.ledger, included */帳簿/2024.ledger",
+        layout: Layout {
+            names: ["帳簿/2024.ledger", "帳簿/old/2024.ledger", "帳簿/old/帳簿/2024.ledger", "帳簿/old/帳簿/x y/帳簿/2024.ledger"],
+            includes: ["old/2024.ledger", "帳簿/2024.ledger", "x y/帳簿/2024.ledger"],
+        },
+        spellings: &[(".", "帳簿/2024.ledger"), ("帳簿", "2024.ledger"), ("帳簿", "./2024.ledger"), (".", "./帳簿/2024.ledger")],
+    },
+];
+
+/// does the included file that holds the entry end in the components of the root path as typed?
+fn repeats_typed(bad_rel: &str, typed: &str) -> bool {
+    let t: Vec<&str> = typed.split('/').filter(|c| !c.is_empty() && *c != "." && *c != "..").collect();
+    let b: Vec<&str> = bad_rel.split('/').collect();
+    !t.is_empty() && b.len() > t.len() && b[b.len() - t.len()..] == t[..]
+}
+
+/// one run of the built binary: `okane balance TYPED` with the current directory `cwd`
+fn cmd_observe(bin: &str, cwd: &std::path::Path, typed: &str, bad_canon: &std::path::Path) -> (String, Value) {
+    let args = vec!["balance".to_string(), typed.to_string()];
+    match crate::c17x::run_in(bin, cwd, &args, 10_000) {
+        Err(e) => ("FAbort".to_string(), json!({ "harness_error": e })),
+        Ok(o) => {
+            let stderr = strip_ansi(&o.stderr);
+            let diag = read_diag(&o.stderr);
+            let js = json!({"cwd": cwd.to_string_lossy(), "typed": typed, "exit": o.code, "signal": o.signal, "stderr": stderr, "diag": diag});
+            let term = if o.timeout {
+                "FTimeout".to_string()
+            } else if o.signal.is_some() {
+                "FAbort".to_string()
+            } else if o.code == Some(0) {
+                "FAccepted".to_string()
+            } else if o.code == Some(101) || stderr.contains("panicked at") {
+                "FPanic".to_string()
+            } else {
+                let is_parse = stderr.contains("failed to parse file");
+                let is_book = diag["header"].is_array();
+                // the named path, however it is spelled (relative to the current directory of the
+                // run, with `.` / `..`), must be THE file that holds the entry
+                let paths: Vec<String> = diag["paths"].as_array().map(|a| a.iter().filter_map(|x| x.as_str().map(|s| s.to_string())).collect()).unwrap_or_default();
+                let same_file = |p: &String| {
+                    let pb = PathBuf::from(p);
+                    let full = if pb.is_absolute() { pb } else { cwd.join(pb) };
+                    std::fs::canonicalize(full).map(|c| c == bad_canon).unwrap_or(false)
+                };
+                let named_ok = !paths.is_empty() && paths.iter().all(same_file);
+                format!(
+                    "(FDiag {} {{| d_named := {}; d_path_ok := {}; d_header := {}; d_gutter := {} |}})",
+                    if is_parse { 1 } else if is_book { 2 } else { 0 },
+                    coq::bool_(!paths.is_empty()),
+                    coq::bool_(named_ok),
+                    match diag["header"].as_array() {
+                        Some(h) => format!("(Some ({},{}))", h[0], h[1]),
+                        None => "None".to_string(),
+                    },
+                    nlist(&diag["gutter"])
+                )
+            };
+            (term, js)
+        }
+    }
 }
 
 /// an end-of-line syntax error with a chosen follower: what stands directly after the line
@@ -472,7 +587,9 @@ pub fn child_observe(input: &[u8]) -> String {
         for (p, c) in &files {
             map.insert(PathBuf::from(format!("/r/{}", p)), c.as_bytes().to_vec());
         }
-        let loader = load::Loader::new(PathBuf::from("/r/main.ledger"), load::FakeFileSystem::from(map))
+        // the root is the first file of the tree
+        let root = files.first().map(|f| f.0.clone()).unwrap_or_else(|| "main.ledger".to_string());
+        let loader = load::Loader::new(PathBuf::from(format!("/r/{}", root)), load::FakeFileSystem::from(map))
             .with_error_renderer(annotate_snippets::Renderer::plain());
         let res = report::process(&mut ctx, loader, &report::ProcessOptions::default());
         let out = match res {
@@ -536,6 +653,22 @@ pub fn run(o: &Opts) {
         cases.push(c);
         followers.push(Some(f));
     }
+    // the root named by a relative path from a chosen current directory (command leg below)
+    let bin = std::env::var("OKV_OKANE_BIN").ok().filter(|b| std::path::Path::new(b).exists());
+    let mut rel: Vec<Option<usize>> = vec![None; cases.len()];
+    if bin.is_some() {
+        let round = n_general * 4;
+        let n_rel = round * if o.thorough { 8 } else { 2 };
+        let mut r3 = Rng::new(o.seed, 141414);
+        for k in 0..n_rel {
+            let li = (k + k / round) % REL_LAYOUTS.len();
+            cases.push(gen_case_in(&mut r3, &bads[..n_general], k, &REL_LAYOUTS[li].layout));
+            followers.push(None);
+            rel.push(Some(li));
+        }
+    } else {
+        st.assumptions.push("OKV_OKANE_BIN not set: the relative-root command leg did not run".to_string());
+    }
     // leg 1: FakeFileSystem in child processes
     let inputs: Vec<Vec<u8>> = cases
         .iter()
@@ -560,6 +693,43 @@ pub fn run(o: &Opts) {
         }
         let cr = cli::run(&["balance", root.to_str().unwrap()]);
         let cli_diag = read_diag(&cr.stderr);
+        // leg 3: the built binary, started in a chosen directory with the root as typed there
+        let mut cmd_terms: Vec<String> = Vec::new();
+        let mut cmd_json: Vec<Value> = Vec::new();
+        if let (Some(li), Some(bin)) = (rel[k], bin.as_ref()) {
+            let tree = scratch.dir.join(&dir);
+            let rl = &REL_LAYOUTS[li];
+            st.count("stream:relative-root");
+            st.count(&format!("relative-root:layout:{}", rl.name));
+            for (cwd_rel, typed) in rl.spellings {
+                let cwd = tree.join(cwd_rel);
+                let _ = std::fs::create_dir_all(&cwd);
+                let typed: String = if *typed == ABS { root.to_string_lossy().into_owned() } else { typed.to_string() };
+                let (t, mut j) = cmd_observe(bin, &cwd, &typed, &bad_path);
+                j["cwd"] = json!(cwd_rel);
+                let shape = if typed.starts_with('/') {
+                    "absolute"
+                } else if typed.starts_with("../") {
+                    "../NAME"
+                } else if typed.starts_with("./") {
+                    "./PATH"
+                } else if typed.contains('/') {
+                    "DIR/NAME"
+                } else {
+                    "NAME"
+                };
+                st.count(&format!("relative-root:typed:{}", shape));
+                if c.depth > 0 && !typed.starts_with('/') {
+                    st.count(if repeats_typed(&c.files[c.bad_file].0, &typed) {
+                        "relative-root:runs where the included file holding the entry ends in the typed root path"
+                    } else {
+                        "relative-root:runs where the included file holding the entry is named differently"
+                    });
+                }
+                cmd_terms.push(t);
+                cmd_json.push(j);
+            }
+        }
         let _ = std::fs::remove_dir_all(scratch.dir.join(&dir));
         let fake_expect = format!("/r/{}", c.files[c.bad_file].0);
         let (fake_term, fake_json, accepted) = match co {
@@ -614,13 +784,13 @@ pub fn run(o: &Opts) {
         let rep = json!({"property": "C14", "files": c.files, "bad_entry": b.name, "bad_file": c.files[c.bad_file].0,
                          "first_line": c.first_line, "last_line": c.last_line, "depth": c.depth,
                          "follower": followers[k].map(|f| FOLLOWERS[f]),
-                         "impl": {"process_on_fake_fs": fake_json, "cli_balance_stderr": strip_ansi(&cr.stderr), "cli_diag": cli_diag},
-                         "reproduce": "report::process(Loader::new(\"/r/main.ledger\", FakeFileSystem)) ; okane balance <root>"});
+                         "impl": {"process_on_fake_fs": fake_json, "cli_balance_stderr": strip_ansi(&cr.stderr), "cli_diag": cli_diag, "command_runs": cmd_json},
+                         "reproduce": "report::process(Loader::new(\"/r/main.ledger\", FakeFileSystem)) ; okane balance <root> ; command_runs: write `files` below an empty directory, cd to `cwd` there and run `okane balance <typed>`"});
         if nontrivial && c.depth > 0 {
             st.sample(rep.clone(), 4);
         }
         let term = format!(
-            "{{| c_text := {}; c_kind := {}; c_first := {}; c_last := {}; c_index := {}%nat; c_whole := {}; c_fake := {}; c_cli := {} |}}",
+            "{{| c_text := {}; c_kind := {}; c_first := {}; c_last := {}; c_index := {}%nat; c_whole := {}; c_fake := {}; c_cli := {}; c_cmd := {} |}}",
             parseobs::text(&c.files[c.bad_file].1),
             b.kind,
             c.first_line,
@@ -631,7 +801,8 @@ pub fn run(o: &Opts) {
                 "UndeduciblePostingAmount" | "BalanceAssertionFailure" | "ZeroAmountWithExchange" | "ZeroExchangeRate" | "ExchangeWithAmountCommodity"
             )),
             fake_term,
-            cli_term
+            cli_term,
+            coq::list(cmd_terms.iter().cloned())
         );
         sh.push(term, vec![rep]);
     }
